@@ -131,7 +131,7 @@ def main(run):
             for k in range(1, K + 1):
                 b = copy.deepcopy(sc)
                 rng_restore(pre)
-                b.clock.fail_at = k
+                b.clock.fail_at_next = k
                 raised = None
                 try:
                     call(b, x, y, kw)
@@ -186,7 +186,7 @@ def main(run):
                 x2, y2 = b.next_obs()
                 inject = faults < 3 and rnd.random() < 0.5
                 snap = b.snapshot()
-                b.clock.fail_at = rnd.randrange(1, 8) if inject else None
+                b.clock.fail_at_next = rnd.randrange(1, 8) if inject else None
                 try:
                     b.step(x2, y2)
                     b.clock.fail_at = None
